@@ -48,6 +48,7 @@ DH = {'L': F(1, 2)}
 DM = {'M': F(1)}
 DIMS7 = [D0, DL, DT, DV, DA, DH, DM]
 DIMS3 = [D0, DL, DV]
+DIMS10 = DIMS7 + [{'T': F(-2)}, {'M': F(1), 'L': F(1), 'T': F(-2)}, {'L': F(-1, 2), 'M': F(3, 2)}]
 
 EXPONENTS = [F(-2), F(-1), F(-1, 2), F(0), F(1, 2), F(1), F(2)]
 
